@@ -244,6 +244,8 @@ class Frag:
                         return base.items[int(k)]
                 raise Uninterpretable("symbolic index into a tuple: %s" % ast.unparse(e))
             raise Uninterpretable("subscript of %r" % (base,))
+        if isinstance(e, (ast.Dict, ast.Set, ast.JoinedStr)):
+            return Opaque("container/str literal", e)
         if isinstance(e, ast.Tuple):
             return Tup([self.ev(x) for x in e.elts])
         if isinstance(e, ast.List):
@@ -282,6 +284,8 @@ class Frag:
                 raise Uninterpretable("tuple assignment from %r" % (val,))
         elif isinstance(target, ast.Subscript) and self.on_store is not None and self.on_store(self, target, val, None):
             return
+        elif isinstance(target, ast.Subscript) and isinstance(target.value, ast.Name) and isinstance(self.env.get(target.value.id), Opaque):
+            return      # bookkeeping in an opaque local container: not part of the numeric fragment
         else:
             raise Uninterpretable("assignment target %s" % ast.unparse(target))
 
